@@ -414,13 +414,20 @@ def run_handlers(rec, S, F):
     if F is not None:
         for path in ("laythe_vm::fiber::Fiber::pop_frame",):
             fn = F.fn(path)
-            if fn is not None and any(lastseg(t_["f"]) in ("pop_exception_handler", "truncate", "retain") or "exception_handlers" in str(sem.desc_operand(fn, t_["args"][0]) if t_["args"] else "") for _, t_ in fn.calls()):
-                runtime_clears = True
+            if fn is not None:
+                bodies_ = [fn] + list(F.closures_of(fn))
+                pops_ = any(lastseg(t_["f"]) in ("pop_exception_handler", "truncate", "retain", "pop") and (lastseg(t_["f"]) != "pop" or "exception_handlers" in str(sem.desc_operand(b_, t_["args"][0]) if t_["args"] else "")) for b_ in bodies_ for _, t_ in b_.calls())
+                depth_ = any(lastseg(t_["f"]) == "call_frame_depth" for b_ in bodies_ for _, t_ in b_.calls())
+                if pops_ and depth_:
+                    runtime_clears = True
         orr = F.find1(r"<impl laythe_vm::vm::Vm>::op_return$")
         if orr is not None and any(lastseg(t_["f"]) in ("pop_exception_handler",) for _, t_ in orr.calls()):
             runtime_clears = True
-    ok = not bounded or runtime_clears
-    rec.inst(R, "multiplicity: exits pop as many handlers as are open", ok=ok, loc=L(COMPILER, t["line"]), note="constant-bounded exits: %s; run-time clearing on frame exit: %s" % (bounded, runtime_clears))
+    # discarding a frame's handlers when the frame is popped covers the exits that leave the frame; break/continue stay inside it
+    if runtime_clears:
+        bounded = [b for b in bounded if b not in ("return_", "emit_return")]
+    ok = not bounded
+    rec.inst(R, "multiplicity: exits pop as many handlers as are open", ok=ok, loc=L(COMPILER, t["line"]), note="constant-bounded exits not covered: %s; run-time clearing on frame exit: %s" % (bounded, runtime_clears))
     if not ok:
         for fname in bounded:
             rec.finding(R, "F2.h/multiplicity/%s" % fname, "%s emits at most one PopHandler, try blocks nest without bound, and neither op_return nor Fiber::pop_frame discards a frame's handlers: leaving two nested try blocks at once leaves a stale handler active" % fname, loc=L(COMPILER, fns[fname]["line"]), fn=fname)
